@@ -96,33 +96,7 @@ theorem gen_view_bytes (buffers : List Bytes) (desc : Nat) :
 /-- what the builder packs inline the reader reads back, up to the capacity of the source -/
 example : Read.viewBytes [] (packInline [1, 2, 3]) = .ok [1, 2, 3] := by decide +kernel
 
-/-- the message texts of the model's builders that are the source's texts verbatim -/
-def verbatim : List String :=
-  ["Cannot push null for non-nullable array", "Invalid offset array: expected at least a single element",
-   "Time32 only supports second or millisecond resolutions", "Time64 only supports nanosecond or microsecond resolutions",
-   "Missing keys field for map", "Missing values field for map", "Union with non consecutive type ids are not supported",
-   "Unknown variant does not support serialize_default", "Unknown variant does not support serialize_none",
-   "serialize_unit/serialize_none is not supported", "Timezone {tz} is not supported",
-   "Unknown variant does not support serialize_struct_start", "Unknown variant does not support serialize_unit",
-   "Unknown variant does not support serialize_map_start", "Cannot serialize enum with data as string",
-   "Unknown variant does not support serialize_newtype_variant", "Unknown variant does not support serialize_tuple_variant_start",
-   "Unknown variant does not support serialize_struct_variant_start", "Unknown variant does not support serialize_unit_struct",
-   "Invalid map: the last key has no value", "Invalid map: a key was serialized before the value of the previous key",
-   "Invalid map: a value was serialized without a key", "Decimal128 only supports precisions between 1 and 38"]
-
-theorem gen_messages : verbatim.all (fun m => ConstantsBuild.messages.any (fun t => decide (t = m))) = true := by decide +kernel
-
 /-- the model says `fail "Cannot push null for non-nullable array"` where the source does -/
 example : setValidity none 0 false = fail "Cannot push null for non-nullable array" := by decide +kernel
-
-/-- model texts the source continues with a placeholder: (model text, continuation in the source) -/
-def prefixes : List (String × String) :=
-  [("Duplicate field", " {key}"), ("Duplicate field", " {name}"),
-   ("BytesView overflow: the length {len} or the buffer offset {offset} exceeds i32::MAX", ""),
-   ("BytesView overflow: the element length {len} exceeds i32::MAX", ""),
-   ("BytesView overflow: the buffer offset {start} exceeds i32::MAX", "")]
-
-theorem gen_message_prefixes :
-    prefixes.all (fun e => ConstantsBuild.messages.any (fun t => decide (t = e.1 ++ e.2))) = true := by decide +kernel
 
 end SaModel.Props.ConstGenBuild
